@@ -1,3 +1,11 @@
 import ClipVerif.Model.Conv
 namespace Proofs.C13
+open Gen
+
+/-- two's-complement subtraction is translation invariant (no range hypothesis) -/
+theorem sub_shift (a b v : Int64) : (a + v) - (b + v) = a - b := by
+  apply Int64.toBitVec_inj.mp
+  simp only [Int64.toBitVec_sub, Int64.toBitVec_add]
+  bv_omega
+
 end Proofs.C13
